@@ -1300,3 +1300,38 @@ def rule_generated_name_whole(ctx):
                 ctx.violated("GENNAME", key, f.where(line), 'a name is taken for a generated one on its "fakeDim" prefix alone: a user name with that prefix is replaced by fakeDim<N> when the file is written')
     ctx.floor("GENNAME", 1, n, "(decisions that a dimension name is a generated one)")
     return n
+
+
+def rule_name_limit_same_side(ctx):
+    """NAMELIMIT (C10, C20): H4_MAX_NC_NAME is the largest *length* an SD name may have: the routine that makes name strings
+    accepts `count <= H4_MAX_NC_NAME` (refuses `count > ..`), and so does SDcreate.  Every other comparison of a length with
+    that constant draws the line in the same place - a refusal is written `> H4_MAX_NC_NAME`, never `>=`: a reader that turns
+    away a name of exactly the maximum length makes SDstart fail on a file the writers produced without complaint."""
+    from .facts import int_name
+    prog = ctx.prog
+    n = 0
+    for f in prog.lib_funcs():
+        if not f.rel.startswith("mfhdf/src/"):
+            continue
+        k = 0
+        for _b, _i, s, x in f.nodes(True):
+            if x[0] != "bin" or x[1] not in ("<", "<=", ">", ">="):
+                continue
+            l, r = strip(x[2]), strip(x[3])
+            op = x[1]
+            if int_name(r) == "H4_MAX_NC_NAME" and kind(l) != "int":
+                pass
+            elif int_name(l) == "H4_MAX_NC_NAME" and kind(r) != "int":
+                op = {"<": ">", "<=": ">=", ">": "<", ">=": "<="}[op]
+            else:
+                continue
+            k += 1
+            n += 1
+            key = "NAMELIMIT:%s#%d" % (f.name, k)
+            line = s.get("l", f.line)
+            if op in (">", "<="):
+                ctx.holds("NAMELIMIT", key, f.where(line), "`%s`: a length equal to the maximum is on the accepted side" % render(x)[:60], nontrivial=True)
+            else:
+                ctx.violated("NAMELIMIT", key, f.where(line), "`%s` puts a length equal to H4_MAX_NC_NAME on the refused side, while the routines that create names accept it" % render(x)[:60])
+    ctx.floor("NAMELIMIT", 3, n, "(comparisons of a length with H4_MAX_NC_NAME)")
+    return n
